@@ -193,8 +193,8 @@ func (j *job) exec(sl *slot) {
 	j.r = scanSafe(scanWith(j.os.o), j.input)
 	j.obs = j.r.canon()
 	vs := oracle(j.os, j.input, j.r)
-	if !j.os.driver {
-		j.extra = len(vs) > 0
+	if !j.os.driver && j.os.o.GoCommand {
+		j.extra = len(vs) > 0 // GoCommand: Pos is known to be off (C08_positions_gocommand_refuted), unused by drivers
 		return
 	}
 	j.viols = vs
